@@ -37,7 +37,16 @@ def pool(rnd, data, n):
         match(["dots", "a", "b"], "==", "2"), match(["dots", "a.b"], "==", "1"), match(["dots", "a", "b"], "==", "1"), match(["dots", "a.b"], "!=", "1"),
         match(["dots", "a/b"], "==", "5"), match(["dots", "a", "c", "d"], "==", "4"), match(["dots", "a", "c/d"], "==", "3"), match(["dots", "a b"], "==", "6"), match(["dots", "ab"], "==", "7"),
     ]
-    return [a for a in fixed if a["sel"]["path"][0] != "dots" or has_dots] + atoms[:n]
+    # composite operands: pairs over them are chains of three and four operands in every grouping (an evaluator that treats a chain
+    # as one flat list must still behave like the nested pairs)
+    T, F, E, A = match(["s"], "==", "hello"), match(["s"], "!=", "hello"), match(["i"], "==", "abc"), match(["many", "zz"], "==", "1")
+    def bn(op, l, r):
+        return {"t": op, "l": l, "r": r, "val": "", "hv": False, "mode": "", "n1": "", "n2": ""}
+    def nt(e):
+        return {"t": "not", "e": e, "val": "", "hv": False, "mode": "", "n1": "", "n2": ""}
+    fixed += [bn("and", T, E), bn("and", T, T), bn("and", F, E), bn("or", F, E), bn("or", F, F), bn("or", T, E), nt(E), nt(T), bn("and", T, A), bn("or", A, E),
+              bn("and", T, bn("or", F, E)), nt(bn("and", T, F))]
+    return [a for a in fixed if a["t"] != "match" or a["sel"]["path"][0] != "dots" or has_dots] + atoms[:n]
 
 
 def main():
